@@ -222,6 +222,8 @@ def finish(prop, mod, tier, seed, outs, extra, t0):
                     known_hits.append((k, r))
                 else:
                     violations.append((o, r))
+            elif r['status'] == 'fault':
+                faults.append(f"{r['name']}: {r['detail'][:400]}")
             else:
                 undecided.append(dict(name=r['name'], detail=r['detail'][:300]))
     for base, sts in canary_state.items():
